@@ -334,7 +334,7 @@ RECORD_OPERATOR_OPS = {"v==v", "v!=v", "numpy.equal(self)", "numpy.not_equal(sel
 
 
 PAIRINGS = [("np(3)", "np(3)"), ("ak-jagged", "ak-jagged"), ("np(3)", "object"), ("object", "np(3)"), ("ak-jagged", "object"), ("object", "ak-jagged"),
-            ("ak-flat", "np(3)"), ("np(3)", "ak-flat"), ("ak-record", "ak-record"), ("ak-rawzip", "ak-rawzip"), ("ak-record", "object"), ("ak-option", "ak-option"), ("np(2,2)", "np(2,2)"),
+            ("ak-flat", "np(3)"), ("np(3)", "ak-flat"), ("ak-record", "ak-record"), ("ak-rawzip", "ak-rawzip"), ("np(3,1)", "np(1,3)"), ("ak-record", "object"), ("ak-option", "ak-option"), ("np(2,2)", "np(2,2)"),
             ("ak-nested", "object")]
 
 
@@ -343,7 +343,8 @@ def run_binary(F, s1, s2, m1, m2, pairings, seed):
     for l1, l2 in pairings:
         rng = random.Random(hash((seed, s1, s2, m1, m2, l1, l2)) & 0xFFFFFFF)
         a, sa = AR.build(l1, s1, m1, rng, extras=(l1 in ("ak-jagged", "ak-record")))
-        if AR.nest(l1) == AR.nest(l2) or "E" in (AR.nest(l1), AR.nest(l2)):
+        outer = (l1, l2) == ("np(3,1)", "np(1,3)")
+        if AR.nest(l1) == AR.nest(l2) or "E" in (AR.nest(l1), AR.nest(l2)) or outer:
             b, sb = AR.build(l2, s2, m2, rng, extras=(l2 in ("ak-jagged",)))
         else:
             continue
@@ -370,7 +371,11 @@ def run_binary(F, s1, s2, m1, m2, pairings, seed):
             try:
                 with np.errstate(all="ignore"):
                     oop = OBJECT_FORM.get(name, op)
-                    expected = AR.struct_zip(sa, sb, lambda x, y: oop(AR.obj_of(s1, m1, x), AR.obj_of(s2, m2, y)))
+                    if outer:
+                        # NumPy broadcasting of shape (3, 1) against (1, 3): element [i][j] pairs a[i][0] with b[0][j]
+                        expected = [[oop(AR.obj_of(s1, m1, ra[0]), AR.obj_of(s2, m2, cb)) for cb in sb[0]] for ra in sa]
+                    else:
+                        expected = AR.struct_zip(sa, sb, lambda x, y: oop(AR.obj_of(s1, m1, x), AR.obj_of(s2, m2, y)))
             except Exception:
                 continue
             try:
@@ -423,7 +428,7 @@ def lattice(tier, seed):
                     pairs += [(s2, a, b) for a, b in flav]
                 else:
                     pairs.append((s2,) + flav[k])
-        pairings = PAIRINGS if tier == "thorough" else PAIRINGS[:10]
+        pairings = PAIRINGS if tier == "thorough" else PAIRINGS[:11]
         if ak is None:
             pairings = [p for p in pairings if not any(x.startswith("ak") for x in p)]
         bjobs.append((s1, pairs, pairings, seed))
